@@ -98,3 +98,126 @@ def run(rep, ctx, anchor, rule="R5v"):
              "is decided by another collection, and queries that do not correspond one-to-one to its elements are never "
              "looked at" % bad), bad or anchor.body.span)
     return n
+
+
+# ---------------------------------------------------------------------------------------------------------
+# R5w: the order in which a batch prover hands polynomials to `open` is the order of the query grouping
+ADAPTORS = ("iter", "into_iter", "iter_mut", "filter", "map", "filter_map", "enumerate", "rev", "skip", "take", "cloned", "copied",
+            "zip", "chain", "peekable", "by_ref", "skip_while", "take_while", "flat_map", "inspect", "deref", "as_ref", "as_slice",
+            "values", "keys", "into_values", "into_keys")
+FILLS = ("push", "push_back", "extend", "insert")
+
+
+def _defs(b, l):
+    out = []
+    for blk in b.blocks:
+        if blk["cleanup"]:
+            continue
+        for st in blk["stmts"]:
+            if st["dst"]["l"] == l and not st["dst"]["p"]:
+                out.append(("s", st["rv"]))
+        t = blk["term"]
+        if t["k"] == "call" and t["dst"]["l"] == l and not t["dst"]["p"]:
+            out.append(("c", t))
+    return out
+
+
+def source_roots(b, l, depth=0, seen=None):
+    """the locals an iterator / view in local `l` walks over: back through adaptors along their *receiver* only (what a
+    `filter` closure captures decides which elements pass, not in which order they come)."""
+    seen = seen if seen is not None else set()
+    if l in seen or depth > 15:
+        return set()
+    seen.add(l)
+    ds = _defs(b, l)
+    if not ds or 1 <= l <= b.arg_count:
+        return {l}
+    out = set()
+    for kind, d in ds:
+        if kind == "s":
+            k = d.get("k")
+            pl = d.get("pl") if k in ("ref", "rawptr") else (d["ops"][0].get("pl") if k in ("use", "cast") and d.get("ops") and d["ops"][0]["k"] in ("copy", "move") else None)
+            if pl is None:
+                out.add(l)
+            elif pl["l"] == l:
+                out.add(l)
+            else:
+                out |= source_roots(b, pl["l"], depth + 1, seen) if not [e for e in pl["p"] if isinstance(e, dict) and "n" in e] else {pl["l"]}
+        else:
+            nm = (d.get("callee") or "").rsplit("::", 1)[-1]
+            if nm in ADAPTORS and d["args"] and d["args"][0]["k"] in ("copy", "move"):
+                out |= source_roots(b, d["args"][0]["pl"]["l"], depth + 1, seen)
+            else:
+                out.add(l)
+    return out
+
+
+def run_order(rep, ctx, key, body, ctx_adt, q_index, polys_arg, rule="R5w"):
+    """the vector of polynomials a batch prover hands to `open` is filled under an innermost loop (or adaptor closure)
+    that walks a container derived from the query set: the per-point label set, whose order the verifier uses too. A fill
+    driven by the caller's list of polynomials (filtered by membership in the label set) hands them over in the
+    caller's order; prover and verifier then give their per-polynomial challenges to different polynomials."""
+    from ..flow import Graph
+    f = ctx.facts
+    g = Graph(f, f.closure([body.id], ctx_adt), [body.id], ctx_adt)
+    from_q = {st[0] for st in g.reach([(body.id, q_index)], typed=False, kinds=(DATA, ALIAS))}
+    n = 0
+    bad = None
+    for bid in sorted(g.scope):
+        b = f.bodies[bid]
+        for i, t in b.calls():
+            nm = (t.get("callee") or "").rsplit("::", 1)[-1]
+            if nm != "open" or len(t["args"]) <= polys_arg or t["args"][polys_arg]["k"] not in ("copy", "move"):
+                continue
+            if not (f.call_targets(t, ctx_adt) or (t.get("callee_trait") or "").endswith("PolynomialCommitment")):
+                continue
+            vec_roots = source_roots(b, t["args"][polys_arg]["pl"]["l"])
+            # fill sites of those vectors in this body and in its closures
+            fam = [x for x in g.scope if x == bid or (f.bodies[x].kind == "Closure" and f.bodies[x].root == b.root)]
+            for x in fam:
+                bx = f.bodies[x]
+                targets = set(vec_roots) if x == bid else set()
+                if x != bid:
+                    # captured vectors: the closure's upvar locals created from (refs of) the roots
+                    for pblk in b.blocks:
+                        for st in pblk["stmts"]:
+                            rv = st["rv"]
+                            if rv.get("k") == "agg" and rv.get("closure") == x:
+                                for k_, op in enumerate(rv["ops"]):
+                                    if op["k"] in ("copy", "move") and source_roots(b, op["pl"]["l"]) & vec_roots and k_ in (bx.upvar_locals or {}):
+                                        targets.add(bx.upvar_locals[k_])
+                if not targets:
+                    continue
+                loops = _natural_loops(bx)
+                for j, u in bx.calls():
+                    if (u.get("callee") or "").rsplit("::", 1)[-1] not in FILLS or not u["args"] or u["args"][0]["k"] not in ("copy", "move"):
+                        continue
+                    if not (source_roots(bx, u["args"][0]["pl"]["l"]) & targets):
+                        continue
+                    n += 1
+                    inner = [(h, blocks) for (h, blocks) in loops if j in blocks]
+                    drivers = set()
+                    if inner:
+                        h, blocks = min(inner, key=lambda z: len(z[1]))
+                        for c in _iterator_locals(bx, h, blocks):
+                            drivers |= {(x, r) for r in source_roots(bx, c)}
+                    elif bx.kind == "Closure":
+                        for cb in g.scope:
+                            pb = f.bodies[cb]
+                            made = {st["dst"]["l"] for blk in pb.blocks for st in blk["stmts"]
+                                    if st["rv"].get("k") == "agg" and st["rv"].get("closure") == x and not st["dst"]["p"]}
+                            for ci, ct in pb.calls():
+                                args = [a for a in ct["args"] if a["k"] in ("copy", "move")]
+                                if made and len(args) >= 2 and any(a["pl"]["l"] in made for a in args[1:]):
+                                    drivers |= {(cb, r) for r in source_roots(pb, args[0]["pl"]["l"])}
+                    if drivers and not any(d in from_q for d in drivers) and bad is None:
+                        bad = u["span"]
+    if n == 0:
+        return 0
+    rep.add(rule, "%s:opened-in-query-order" % key, bad is None,
+            ("the %d fill(s) of the vector of polynomials handed to `open` happen under a walk over a container derived from "
+             "the query set" % n) if bad is None else
+            ("the vector of polynomials handed to `open` is filled at %s under a walk over something that does not come from "
+             "the query set: the polynomials of a group are opened in that container's order, not in the order of the "
+             "group's label set that the verifier uses" % bad), bad or body.span)
+    return n
